@@ -149,9 +149,19 @@ def _val(j):
     return {"t": "r", "v": str(j["v"])}
 
 
+def _obj(o):
+    if o["k"] == "struct":
+        return {"k": "struct", "fs": [_val(x) for x in o["fs"]]}
+    if o["k"] == "array":
+        return {"k": "array", "len": o["len"], "es": [_val(x) for x in o["es"]]}
+    return {"k": "variant", "tag": o["tag"], "val": _val(o["val"])}
+
+
 def _side(s, consts):
     out = {"top": [_val(x) for x in s.get("top", [])],
            "slots": {k: _val(v) for k, v in s.get("slots", {}).items()}}
+    if "objs" in s:
+        out["objs"] = {k: _obj(o) for k, o in s["objs"].items()}
     if consts:
         out["ki"] = {k: num(v) for k, v in s.get("ki", {}).items()}
         out["kf"] = {k: mag(v) for k, v in s.get("kf", {}).items()}
@@ -242,16 +252,18 @@ def validate(runs, wd, chunk_events=40000, tag="vm"):
     return viols, totals
 
 
-def trace_leg(rep, prop, cases, wd, n, jobs=6, maxsteps=20000, timeout=90):
+def trace_leg(rep, prop, cases, wd, n, jobs=6, maxsteps=20000, timeout=90, flags=FLAGS, mode=None, name="traced"):
     """re-run a sample of `cases` with the instruction-level hooks on and let TraceVM.tla validate the recorded events;
     violations are filed on `rep`; returns the coverage counters"""
     if not cases or n <= 0:
         return {}
     stride = max(1, len(cases) // n)
-    traced = [dict(c, id=c["id"] + "@vm", trace=FLAGS, maxsteps=maxsteps) for c in cases[::stride][:n]]
-    tobs, _ = vlib.run_harness(traced, wd, name="traced", jobs=jobs, timeout=timeout)
+    traced = [dict(c, id=c["id"] + "@vm", trace=flags, maxsteps=maxsteps) for c in cases[::stride][:n]]
+    if mode:
+        traced = [dict(c, mode=mode) for c in traced]
+    tobs, _ = vlib.run_harness(traced, wd, name=name, jobs=jobs, timeout=timeout)
     runs = [(c["id"], o.get("events")) for c, o in zip(traced, tobs) if o.get("events")]
-    viols, cov = validate(runs, wd)
+    viols, cov = validate(runs, wd, tag=name)
     byid = {c["id"]: (c, o) for c, o in zip(traced, tobs)}
     for x in viols:
         c, o = byid.get(x["run"], ({"id": x["run"]}, {}))
